@@ -1,8 +1,9 @@
 /-
 C04 — SMBus framing, byte count and reported length of encoded packets agree.
 -/
-import Mctp.Lemmas.Encode
+import Mctp.Lemmas.EncodeApi
 import Mctp.Model.Decode
+import Mctp.Lemmas.Decode
 import Mctp.Spec.Api
 namespace Mctp
 namespace C04
@@ -10,24 +11,41 @@ namespace C04
 theorem frame (c : Ctx) (dst : B) (e : Enc) (buf buf' : Bytes) (n : Nat)
     (h : encode c dst e buf = .ok (buf', n)) :
     Spec.frameOk c.address dst (buf'.take n) n = true := by
-  sorry
+  obtain ⟨t, hd, d, -, -, hf, hn, hp⟩ := encode_ok_take h
+  have hl : (buf'.take n).length = 10 + optLen hd + d.length := by
+    rw [hp, List.length_append, packetPre_length]; simp; omega
+  have hc : (6 + optLen hd + d.length) % 256 = 6 + optLen hd + d.length := Nat.mod_eq_of_lt (by omega)
+  unfold Spec.frameOk
+  rw [hl]
+  rw [hp, packetPre_cons]
+  simp [byteAt, hc, hn]
+  omega
 
 /-- the length probe on any prefix of at least three bytes returns the reported length -/
 theorem probe_prefix (c : Ctx) (dst : B) (e : Enc) (buf buf' : Bytes) (n k : Nat)
     (h : encode c dst e buf = .ok (buf', n)) (hk : 3 ≤ k) :
     getLength ((buf'.take n).take k) = .ok n := by
-  sorry
+  obtain ⟨t, hd, d, -, -, hf, hn, hp⟩ := encode_ok_take h
+  obtain ⟨k', rfl⟩ := Nat.exists_eq_add_of_le hk
+  have hc : (6 + optLen hd + d.length) % 256 = 6 + optLen hd + d.length := Nat.mod_eq_of_lt (by omega)
+  rw [hp, packetPre_cons]
+  unfold getLength
+  simp [byteAt, smbus_cmd_get, smbus_count_get, hc, hn, Nat.add_comm 3 k']
+  rw [if_neg (by omega)]
+  congr 1
+  omega
 
 /-- a message too large for the one-byte byte count is refused -/
 theorem oversize (c : Ctx) (dst : B) (e : Enc) (buf : Bytes) (t : MsgType) (hd : Option Bytes) (d : Bytes)
     (hb : e.body c = .ok (t, hd, d)) (hbig : 250 < 1 + optLen hd + d.length) (hs : e.isStub = false) :
     encode c dst e buf = .err () := by
-  sorry
+  rw [encode_of_body hb hs, genPacket_oversize _ _ _ _ _ _ hbig]
 
 /-- hence no packet is ever encoded with a truncated count: reported lengths stay within 259 -/
 theorem length_bound (c : Ctx) (dst : B) (e : Enc) (buf buf' : Bytes) (n : Nat)
     (h : encode c dst e buf = .ok (buf', n)) : 10 ≤ n ∧ n ≤ 259 := by
-  sorry
+  obtain ⟨t, hd, d, -, -, hf, hn, -⟩ := encode_ok_take h
+  omega
 
 end C04
 end Mctp
